@@ -122,6 +122,16 @@ def run(ctx):
                     pool.append((g, obj))
                 except Exception:
                     continue
+            if i % 2 == 0:
+                # two graphs that are equal as numbers, names and structure but differ in the dtype of their float tensors
+                try:
+                    ga, gb = gen.dtype_twins(pool[0][0])
+                    oa, ob = impl_construct(ga), impl_construct(gb)
+                    nir.write(io.BytesIO(), oa); nir.write(io.BytesIO(), ob)
+                    if compare.graph_diff(oa, ob):
+                        pool[0] = (ga, oa); pool[1] = (gb, ob); ctx.count("pool_with_dtype_twins")
+                except Exception:
+                    pass
             # nested variants that share names with other graphs: residue would show
             # (the register is the *path*, whatever its spelling: suffixes that tools treat specially included)
             base = os.path.join(tmpdir, rng.choice([f"reg{i}.nir", f"reg{i}.nir", f"reg{i}.tmp", f"reg{i}.nir.tmp", f"reg{i}",
